@@ -43,7 +43,8 @@ def _constraints_to_list_of_assertions(list_of_constraints) -> List[z3.BoolRef]:
     for constraint in list_of_constraints:
         assertions = _get_assertions(constraint)
         if isinstance(assertions, list):
-            list_of_boolrefs_to_return.extend(assertions)
+            # a constraint with several assertions means their conjunction
+            list_of_boolrefs_to_return.append(z3.And(assertions))
         elif isinstance(assertions, z3.BoolRef):
             list_of_boolrefs_to_return.append(assertions)
     return list_of_boolrefs_to_return
